@@ -127,7 +127,7 @@ def playwav_durations(io, path):
     return out
 
 
-def add_playwav(chk, wav_path):
+def add_playwav(chk, wav_path, duration=None):
     from richchk.editor.richchk.rich_chk_editor import RichChkEditor
     from richchk.editor.richchk.rich_trig_editor import RichTrigEditor
     from richchk.io.richchk.query.chk_query_util import ChkQueryUtil
@@ -138,7 +138,7 @@ def add_playwav(chk, wav_path):
     from richchk.model.richchk.trig.rich_trigger import RichTrigger
 
     trig = ChkQueryUtil.find_only_rich_section_in_chk(RichTrigSection, chk)
-    t = RichTrigger(_conditions=[AlwaysCondition()], _actions=[PlayWavAction(_path_to_wav_in_mpq=wav_path, _duration_ms=None)], _players={PlayerId.PLAYER_1})
+    t = RichTrigger(_conditions=[AlwaysCondition()], _actions=[PlayWavAction(_path_to_wav_in_mpq=wav_path, _duration_ms=duration)], _players={PlayerId.PLAYER_1})
     return RichChkEditor().replace_chk_section(RichTrigEditor.add_triggers([t], trig), chk)
 
 
@@ -172,6 +172,35 @@ def scenario_stale_duration(wrapper, base, work):
         return {"first": d1, "second": d.get(member), "new_sound": d.get("staredit\\wav\\second_sound.wav"), "error": None}
     except Exception as ex:  # noqa: BLE001
         return {"first": d1, "second": None, "new_sound": None, "error": type(ex).__name__ + ": " + str(ex)[:120]}
+
+
+def scenario_explicit_duration(wrapper, base, work):
+    """an authored PlayWav with an explicit duration keeps exactly it (0 ms included); without one it gets
+    the file's duration"""
+    from richchk.io.mpq.starcraft_audio_files_io import StarCraftAudioFilesIo
+    from richchk.io.mpq.starcraft_mpq_io import StarCraftMpqIo
+
+    io = StarCraftMpqIo(wrapper)
+    aio = StarCraftAudioFilesIo(wrapper)
+    want = {}
+    files = []
+    for name, ms, dur in (("ex_zero.wav", 900, 0), ("ex_one.wav", 1100, 1), ("ex_long.wav", 1300, 4321), ("ex_none.wav", 1700, None)):
+        f = os.path.join(work, name)
+        make_wav(f, ms)
+        files.append(f)
+        want["staredit\\wav\\" + name] = (dur if dur is not None else ms, dur)
+    m1 = os.path.join(work, "e1.scx")
+    aio.add_audio_files_to_mpq(files, base, m1)
+    chk = io.read_chk_from_mpq(m1)
+    for member, (_, dur) in want.items():
+        chk = add_playwav(chk, member, dur)
+    m2 = os.path.join(work, "e2.scx")
+    try:
+        io.save_chk_to_mpq(chk, m1, m2)
+        got = playwav_durations(io, m2)
+        return {"want": {k: v[0] for k, v in want.items()}, "got": {k: got.get(k) for k in want}, "error": None}
+    except Exception as ex:  # noqa: BLE001
+        return {"want": {k: v[0] for k, v in want.items()}, "got": None, "error": type(ex).__name__ + ": " + str(ex)[:120]}
 
 
 def scenario_sparse_wav(wrapper, base, work, free_slots):
@@ -301,6 +330,8 @@ def main():
                 ChkIo().encode_chk_to_file(RichChkIo().encode_chk(rich), dest, **kw)
             elif op == "scenario_stale_duration":
                 res["scenario"] = scenario_stale_duration(wrapper, base, work)
+            elif op == "scenario_explicit_duration":
+                res["scenario"] = scenario_explicit_duration(wrapper, base, work)
             elif op == "scenario_sparse_wav":
                 res["scenario"] = scenario_sparse_wav(wrapper, base, work, spec.get("free_slots", [0]))
         except BaseException as ex:  # noqa: BLE001
